@@ -170,8 +170,78 @@ impl Ctx {
         self.n_violations() > 0
     }
 
+    /// In the second-profile leg (env VCHECK_LEG): print a JSON summary for the parent process and exit.
+    fn finish_leg(&self) -> i32 {
+        let viol = self.violations.lock().unwrap();
+        let hits = self.known_hits.lock().unwrap();
+        let out = json!({
+            "states": self.states.load(Ordering::Relaxed),
+            "transitions": self.transitions.load(Ordering::Relaxed),
+            "distinct": self.distinct_count(),
+            "wall_s": self.start.elapsed().as_secs_f64(),
+            "violations": viol.iter().map(|(k, v)| json!({"key": k, "what": v["what"], "replay": v["replay"], "size": v["size"]})).collect::<Vec<_>>(),
+            "known": hits.iter().map(|(k, n)| json!({"key": k, "occurrences": n})).collect::<Vec<_>>(),
+            "caps": *self.caps.lock().unwrap(),
+        });
+        println!("{}", out);
+        0
+    }
+
+    /// Run the same check in the overflow-checked build of the harness (profile `checked`) and merge what it finds.
+    fn run_checked_leg(&self) {
+        if self.prop == "C18" || std::env::var("VCHECK_NO_LEG").is_ok() {
+            return; // C18 drives both builds itself
+        }
+        let tier = if self.quick() || matches!(self.prop.as_str(), "C07" | "C08" | "C16") { "quick" } else { "thorough" };
+        let out = std::process::Command::new(format!("{}/target/checked/vcheck", VERIF_DIR)).args([self.prop.as_str(), tier]).env("VCHECK_LEG", "1").output();
+        let o = match out {
+            Ok(o) if o.status.success() => o,
+            Ok(o) => {
+                eprintln!("machinery: checked-profile leg exited with {:?}: {}", o.status.code(), String::from_utf8_lossy(&o.stderr));
+                std::process::exit(2);
+            }
+            Err(e) => {
+                eprintln!("machinery: cannot run the checked-profile harness: {}", e);
+                std::process::exit(2);
+            }
+        };
+        let text = String::from_utf8_lossy(&o.stdout);
+        let line = text.lines().rev().find(|l| l.starts_with('{')).unwrap_or("{}");
+        let v: Value = match serde_json::from_str(line) {
+            Ok(v) => v,
+            Err(e) => {
+                eprintln!("machinery: cannot parse the checked-profile leg output: {}", e);
+                std::process::exit(2);
+            }
+        };
+        let mut n = 0;
+        if let Some(a) = v["violations"].as_array() {
+            for x in a {
+                n += 1;
+                let key = x["key"].as_str().unwrap_or("?").to_string();
+                let what = format!("[overflow-checked build] {}", x["what"].as_str().unwrap_or(""));
+                let rep = json!({"build": "checked", "replay": x["replay"]});
+                self.violation_sized(&key, x["size"].as_u64().unwrap_or(u64::MAX).saturating_add(1), || what, || rep);
+            }
+        }
+        if let Some(a) = v["known"].as_array() {
+            for x in a {
+                *self.known_hits.lock().unwrap().entry(x["key"].as_str().unwrap_or("?").to_string()).or_insert(0) += x["occurrences"].as_u64().unwrap_or(0);
+            }
+        }
+        for c in v["caps"].as_array().cloned().unwrap_or_default() {
+            self.cap(format!("[checked build] {}", c.as_str().unwrap_or("")));
+        }
+        self.engine("checked-profile-leg", json!({"tier": tier, "states": v["states"], "transitions": v["transitions"], "distinct": v["distinct"], "wall_s": v["wall_s"], "violations": n,
+            "what": "the same check executed by the harness built with overflow-checks and debug-assertions on (panics on arithmetic the release build wraps)"}));
+    }
+
     /// Write evidence, print KNOWN-FINDING / VIOLATION lines, return the process exit code.
     pub fn finish(&self, rule: &str, assumptions: &[&str]) -> i32 {
+        if std::env::var("VCHECK_LEG").is_ok() {
+            return self.finish_leg();
+        }
+        self.run_checked_leg();
         let wall = self.start.elapsed().as_secs_f64();
         let states = self.states.load(Ordering::Relaxed);
         let transitions = self.transitions.load(Ordering::Relaxed);
